@@ -7,6 +7,7 @@ type vHistOp struct {
 	found     bool   // get
 	err       error
 	call, ret int
+	batch     bool // put issued through a one-record batch
 }
 
 // vLinearizable: is there a total order of the completed operations that respects real time (a returned before
@@ -110,6 +111,9 @@ func verifHarnessC08() {
 				o.kind = verifChoice("kind", nk)
 			}
 			o.ki = verifChoice("ki", kp.hot())
+			if verifParam("withbatch") == 1 && o.kind == 0 && verifChoice("as-batch", 2) == 1 {
+				o.batch = true // the put is issued as a one-record batch + Commit (a register write all the same)
+			}
 			if o.kind == 0 {
 				o.val = verifBytes("val", 1)
 			}
@@ -130,6 +134,14 @@ func verifHarnessC08() {
 				o.call = verifTick()
 				switch o.kind {
 				case 0:
+					if o.batch {
+						b := db.NewBatch(DefaultBatchOptions)
+						o.err = b.Put(kp.keys[o.ki], o.val)
+						if o.err == nil {
+							o.err = b.Commit()
+						}
+						break
+					}
 					o.err = db.Put(kp.keys[o.ki], o.val)
 				case 1:
 					o.err = db.Delete(kp.keys[o.ki])
